@@ -107,7 +107,7 @@ pub fn run(t: &[&str]) -> Option<String> {
                 Err(_) => "ERR".into(),
             }
         }
-        "simh" => crate::sim::run_history(&t[1..].join(" ")),
+        "simh" => simh(&t[1..].join(" ")),
         "c14" => c14(t.get(1).copied().unwrap_or("")),
         "stress_shutdown" => stress_shutdown(
             t.get(1).and_then(|x| x.parse().ok()).unwrap_or(4),
@@ -122,6 +122,53 @@ pub fn run(t: &[&str]) -> Option<String> {
         ),
         _ => return None,
     })
+}
+
+/// `sim::run_history`, plus an oracle for the model: the lower-cased spelling (Rust's
+/// str::to_lowercase, which the model does not contain) of every name that the argument checks
+/// of browse / resolve_hostname / register look at, as `"lower": {"<hex name>": "<hex lower>"}`.
+fn simh(history: &str) -> String {
+    let out = crate::sim::run_history(history);
+    let (Ok(h), Ok(mut r)) = (
+        serde_json::from_str::<serde_json::Value>(history),
+        serde_json::from_str::<serde_json::Value>(&out),
+    ) else {
+        return out;
+    };
+    let mut table = serde_json::Map::new();
+    let mut add = |n: &str| {
+        table.insert(hex(n.as_bytes()), serde_json::Value::String(hex(n.to_lowercase().as_bytes())));
+    };
+    for st in h["steps"].as_array().cloned().unwrap_or_default() {
+        for c in st.get("calls").and_then(|x| x.as_array()).cloned().unwrap_or_default() {
+            match c["op"].as_str().unwrap_or("") {
+                "browse" | "browse_cache" => add(c["ty"].as_str().unwrap_or("")),
+                "resolve_hostname" => add(c["host"].as_str().unwrap_or("")),
+                "register" => {
+                    let s = &c["svc"];
+                    if let Ok(info) = ServiceInfo::new(
+                        s["ty"].as_str().unwrap_or(""),
+                        s["name"].as_str().unwrap_or(""),
+                        s["host"].as_str().unwrap_or(""),
+                        "",
+                        1,
+                        None::<std::collections::HashMap<String, String>>,
+                    ) {
+                        add(info.get_fullname());
+                        add(info.get_hostname());
+                        if let Some(sub) = info.get_subtype() {
+                            add(sub);
+                        }
+                    }
+                }
+                _ => {}
+            }
+        }
+    }
+    if let Some(o) = r.as_object_mut() {
+        o.insert("lower".into(), serde_json::Value::Object(table));
+    }
+    r.to_string()
 }
 
 // =========================================================================================
